@@ -138,7 +138,7 @@ def real_phase(run, prop, tier, wd, binary, scs, inv, mon_extra, tag="b"):
             what = "%s: %s %s violated on the recorded run(s) of scenario %s" % (
                 "monitor" if layer == "mon" else "conformance", f["kind"], f["name"], sc0["id"])
             ids = {json.loads(x)["sc"]["id"] for x in unit if '"ev":"scenario"' in x[:40]}
-            run.violation(what, dict(scenarios=[s for s in scs if s["id"] in ids], operator=f["name"],
+            run.violation(what, dict(family="resolve", scenarios=[s for s in scs if s["id"] in ids], operator=f["name"],
                                      trace=[json.loads(x) for x in unit][:60], tlc=f["tlc"][:2500]))
     run.cov["traces_validated_against_impl"] += len(groups)
     for sc in scs:
@@ -233,6 +233,7 @@ def registry_phase(run, tier, wd, binary):
 
 def run_check(prop, tier, replay=None):
     run = vlib.Run(prop, tier, "model_checking")
+    run.write_evidence = replay is None
     rng = random.Random(run.seed * 104729 + int(prop[1:]))
     workdir = vlib.scratch_dir(prop)
     try:
